@@ -6,6 +6,7 @@ import (
 	"encoding/json"
 	"errors"
 	"fmt"
+	"io"
 	"math/rand"
 	"net/http"
 	"os"
@@ -40,8 +41,9 @@ func goid() int64 {
 // ---- scenario -------------------------------------------------------------------------------------
 
 type c11PartSpec struct {
-	Key      int  `json:"key"`      // 0 = the shared key, 1 = a different key (different variables)
-	Mutation bool `json:"mutation"` // mutations are never shared
+	Key         int  `json:"key"`         // 0 = the shared key, 1 = different variables, 2 = same variables but different forwarded headers
+	Mutation    bool `json:"mutation"`    // mutations are never shared
+	WriterFails bool `json:"writerFails"` // this client's response writer fails (its connection is gone)
 }
 
 type c11Choice struct {
@@ -72,6 +74,19 @@ type c11Event struct {
 	out   c11Outcome
 }
 
+type c11Headers struct{ h uint64 }
+
+func (b c11Headers) HeadersForSubgraph(name string) (http.Header, uint64) {
+	return http.Header{"X-User": []string{fmt.Sprint(b.h)}}, b.h
+}
+func (b c11Headers) HashAll() uint64 { return b.h }
+
+type c11FailWriter struct{}
+
+var errClientGone = errors.New("broken pipe (client went away)")
+
+func (c11FailWriter) Write(p []byte) (int, error) { return 0, errClientGone }
+
 type c11Gate struct {
 	data []byte
 	err  error
@@ -89,12 +104,10 @@ func (d *c11DS) Load(ctx context.Context, headers http.Header, input []byte) ([]
 	w.loads[p]++
 	w.mu.Unlock()
 	w.events <- c11Event{p: p, kind: "gate"}
-	select {
-	case g := <-w.gates[p]:
-		return g.data, g.err
-	case <-ctx.Done():
-		return nil, ctx.Err()
-	}
+	// only the scheduler lets a participant through the gate (also for a cancelled context: it then hands out
+	// the context error), so that exactly one participant runs at a time and event order = effect order
+	g := <-w.gates[p]
+	return g.data, g.err
 }
 func (d *c11DS) LoadWithFiles(ctx context.Context, headers http.Header, input []byte, files []*httpclient.FileUpload) ([]byte, error) {
 	return d.Load(ctx, headers, input)
@@ -248,13 +261,21 @@ func c11RunScenario(sc *c11Scenario, r *rand.Rand, fixed []c11Choice) (res c11Re
 			}()
 			ctx := resolve.NewContext(pctx)
 			ctx.Request.ID = 42
-			ctx.VariablesHash = uint64(1000 + sc.Parts[p].Key)
+			ctx.VariablesHash = 1000
+			if sc.Parts[p].Key == 1 {
+				ctx.VariablesHash = 1001
+			}
+			ctx.SubgraphHeadersBuilder = c11Headers{h: 7}
+			if sc.Parts[p].Key == 2 {
+				ctx.SubgraphHeadersBuilder = c11Headers{h: 8} // another user's forwarded headers
+			}
 			if sc.Mode == "inbound" {
 				ctx.ExecutionOptions.DisableSubgraphRequestDeduplication = true
 			} else {
 				ctx.ExecutionOptions.DisableInboundRequestDeduplication = true
-				// the subgraph single flight key is (data source, input, headers): a different key needs a different header hash
-				if sc.Parts[p].Key != 0 {
+				// the subgraph single flight key is (data source, input, headers hash); variables are part of the input,
+				// which this plan does not vary: a key-1 participant opts out instead
+				if sc.Parts[p].Key == 1 {
 					ctx.ExecutionOptions.DisableSubgraphRequestDeduplication = true
 				}
 			}
@@ -263,7 +284,11 @@ func c11RunScenario(sc *c11Scenario, r *rand.Rand, fixed []c11Choice) (res c11Re
 				pl = mutationPlan
 			}
 			var buf bytes.Buffer
-			_, err := resolver.ArenaResolveGraphQLResponse(ctx, pl, &buf)
+			var wr io.Writer = &buf
+			if sc.Parts[p].WriterFails {
+				wr = c11FailWriter{}
+			}
+			_, err := resolver.ArenaResolveGraphQLResponse(ctx, pl, wr)
 			out.Bytes = buf.String()
 			if err != nil {
 				out.Err = err.Error()
@@ -296,7 +321,7 @@ func c11RunScenario(sc *c11Scenario, r *rand.Rand, fixed []c11Choice) (res c11Re
 				if isFollower {
 					// the scheduler waits for a cancelled follower to return before it makes the next choice, so its
 					// entry cannot have been closed in between: an open entry means it left through ctx.Done
-					if cancelled[p] && !entriesClosed(entries, g) {
+					if cancelled[p] && (ev.out.OwnCancel || !entriesClosed(entries, g)) {
 						res.Trace = append(res.Trace, []any{"cancelWait", p})
 					} else {
 						res.Trace = append(res.Trace, []any{"wake", p})
@@ -389,12 +414,17 @@ func c11RunScenario(sc *c11Scenario, r *rand.Rand, fixed []c11Choice) (res c11Re
 			switch status[p] {
 			case "new":
 				choices = append(choices, c11Choice{"start", p})
+				if !cancelled[p] {
+					choices = append(choices, c11Choice{"cancel", p}) // the client is gone before the request is even resolved
+				}
 			case "hook":
 				choices = append(choices, c11Choice{"release", p})
 			case "gate":
 				choices = append(choices, c11Choice{"gateOk", p}, c11Choice{"gateErr", p})
 				if !cancelled[p] {
 					choices = append(choices, c11Choice{"cancel", p})
+				} else {
+					choices = append(choices, c11Choice{"gateCtxErr", p}) // the transport notices the dead context
 				}
 			case "waiting":
 				if !cancelled[p] {
@@ -438,6 +468,9 @@ func c11RunScenario(sc *c11Scenario, r *rand.Rand, fixed []c11Choice) (res c11Re
 		switch c.Kind {
 		case "start":
 			start(p)
+			if cancelled[p] {
+				cancels[p]()
+			}
 		case "gateOk":
 			status[p] = "running"
 			w.gates[p] <- c11Gate{data: []byte(`{"data":{"v":"value"}}`)}
@@ -445,13 +478,21 @@ func c11RunScenario(sc *c11Scenario, r *rand.Rand, fixed []c11Choice) (res c11Re
 			status[p] = "running"
 			gateFail[p] = true
 			w.gates[p] <- c11Gate{err: errUpstream}
+		case "gateCtxErr":
+			status[p] = "running"
+			w.gates[p] <- c11Gate{err: context.Canceled}
 		case "cancel":
 			cancelled[p] = true
+			if status[p] == "new" {
+				break
+			}
 			cancels[p]()
 			if status[p] == "waiting" {
 				expectReturn[p] = true
 			} else {
+				// at the gate: the in-flight upstream call fails with the context error
 				status[p] = "running"
+				w.gates[p] <- c11Gate{err: context.Canceled}
 			}
 		case "release":
 			pt := point[p]
@@ -460,7 +501,11 @@ func c11RunScenario(sc *c11Scenario, r *rand.Rand, fixed []c11Choice) (res c11Re
 			case "inbound.follower.registered", "subgraph.follower.waiting":
 				// now blocked in select; returns only when the entry is closed (or on its own cancellation)
 				e := entries[hookKey[p]]
-				if e != nil && e.closed {
+				if cancelled[p] {
+					// its context is already done: the select returns at once
+					expectReturn[p] = true
+					status[p] = "waiting"
+				} else if e != nil && e.closed {
 					expectReturn[p] = true
 					status[p] = "waiting"
 				} else if e == nil {
@@ -503,6 +548,7 @@ func c11RunScenario(sc *c11Scenario, r *rand.Rand, fixed []c11Choice) (res c11Re
 		for status[p] != "returned" && status[p] != "new" {
 			select {
 			case w.release[p] <- struct{}{}:
+			case w.gates[p] <- c11Gate{err: context.Canceled}:
 			case ev := <-w.events:
 				handle(ev)
 			case <-time.After(2 * time.Second):
@@ -604,6 +650,13 @@ func c11Judge(run *Run, sc *c11Scenario, res c11Result, refOK, refFailed string)
 		if cancelledSet[p] {
 			continue // its own cancellation: any outcome that reports it is its own business
 		}
+		if sc.Parts[p].WriterFails {
+			if o.Err == "" {
+				run.Violate(Violation{Kind: "oracle", Clause: "own_writer_error_reported", Input: in, Impl: res, Detail: fmt.Sprintf("participant %d has a failing writer but got no error", p)}, "")
+				return
+			}
+			continue
+		}
 		g := res.GenOf[p]
 		ownLoadFailed := false
 		for _, c := range sc.Schedule {
@@ -633,7 +686,7 @@ func c11Judge(run *Run, sc *c11Scenario, res c11Result, refOK, refFailed string)
 		c11Accept(run, sc, res, in, n, cancelledSet, shared, func(p int) bool { return true })
 		return
 	}
-	for _, k := range []int{0, 1} {
+	for _, k := range []int{0, 1, 2} {
 		kk := k
 		c11Accept(run, sc, res, in, n, cancelledSet, shared, func(p int) bool { return sc.Parts[p].Key == kk })
 	}
@@ -672,8 +725,8 @@ func c11Accept(run *Run, sc *c11Scenario, res c11Result, in map[string]any, n in
 		return
 	}
 	for p := 0; p < n; p++ {
-		if !inGroup(p) {
-			continue
+		if !inGroup(p) || cancelledSet[p] {
+			continue // a cancelled participant's outcome is its own business (select may take either ready branch)
 		}
 		pc := acc.Pcs[p]
 		o := res.Outcomes[p]
@@ -682,13 +735,13 @@ func c11Accept(run *Run, sc *c11Scenario, res c11Result, in map[string]any, n in
 		case strings.HasPrefix(pc, "doneLeader"), pc == "solo":
 			okPc = res.Loads[p] >= 1 || cancelledSet[p]
 		case strings.HasPrefix(pc, "gotData"):
-			okPc = res.Loads[p] == 0 && o.Err == ""
+			okPc = res.Loads[p] == 0 && (o.Err == "" || sc.Parts[p].WriterFails)
 		case strings.HasPrefix(pc, "gotErr"):
 			okPc = res.Loads[p] == 0
 		case pc == "ownCancel":
 			okPc = cancelledSet[p]
 		case pc == "idle":
-			okPc = sc.Parts[p].Mutation || (sc.Mode == "subgraph" && sc.Parts[p].Key != 0) // never entered the single flight
+			okPc = sc.Parts[p].Mutation || (sc.Mode == "subgraph" && sc.Parts[p].Key == 1) // never entered the single flight
 		}
 		if !okPc {
 			run.Violate(Violation{Kind: "correspondence", Clause: "c11.accept: final model state disagrees with the observed outcome", Input: in, Impl: res, Model: decodeRaw(m),
@@ -755,7 +808,10 @@ func runC11(run *Run, replay string) Spec {
 		for k, np := 0, 2+r.Intn(3); k < np; k++ {
 			ps := c11PartSpec{}
 			if r.Intn(7) == 0 {
-				ps.Key = 1
+				ps.Key = 1 + r.Intn(2)
+			}
+			if r.Intn(9) == 0 {
+				ps.WriterFails = true
 			}
 			if r.Intn(10) == 0 {
 				ps.Mutation = true
